@@ -77,13 +77,15 @@ theorem lexLt_digitsW (w a b : Nat) (ha : a < 10 ^ w) (hb : b < 10 ^ w) :
     · have : a < b := by omega
       simp [h1, this]
     · by_cases h2 : a / 10 = b / 10
-      · simp [h1, h2]
+      · simp [h2]
         by_cases h3 : a < b
         · simp [h3]; omega
         · simp [h3]; omega
       · have : ¬ a < b := by omega
         simp [h1, h2, this]
 
+/-- zero-padded offsets compare like the numbers they denote (this is why `%020d` makes the
+memory store's string comparison correct; a Go int64 is below 10^20) -/
 theorem lexLt_fmt20 (a b : Nat) (ha : a < 10 ^ 20) (hb : b < 10 ^ 20) :
     lexLt (fmt20 a) (fmt20 b) = decide (a < b) := lexLt_digitsW 20 a b ha hb
 
@@ -146,6 +148,7 @@ theorem parseInt64_digits (s : List Nat) (hne : s ≠ []) (h : s.all isDigit = t
   rw [signMatch_digits s h]
   simp [hne, h, hv]
 
+/-- SQLite offsets round-trip through ParseInt -/
 theorem sqlParse_decimal (n : Nat) (h : n ≤ maxInt64) : sqlParse (decimal n) = some (n : Int) := by
   unfold sqlParse
   have hne := decimal_ne_nil n
@@ -158,6 +161,8 @@ theorem decimal_10 : decimal 10 = [49, 48] := by
 theorem decimal_9 : decimal 9 = [57] := by
   rw [decimal_lt _ (by omega)]; rfl
 
+/-- KNOWN FINDING (C10): unpadded decimal offsets do NOT increase under the documented
+lexicographic comparison: offset "10" sorts before offset "9" -/
 theorem sqlite_offsets_not_lex : lexLt (decimal 10) (decimal 9) = true := by
   rw [decimal_10, decimal_9]; decide
 
@@ -169,8 +174,8 @@ theorem logWith_length (off : Nat → Off) (rs : List Rec) : (logWith off rs).le
 theorem logWith_getElem? (off : Nat → Off) (rs : List Rec) (i : Nat) :
     (logWith off rs)[i]? = rs[i]?.map (fun r => (off (i + 1), r)) := by
   by_cases h : i < rs.length
-  · simp [logWith, List.getElem?_eq_getElem, h]
-  · simp [logWith, List.getElem?_eq_none, Nat.le_of_not_lt h]
+  · simp [logWith, h]
+  · simp [logWith, Nat.le_of_not_lt h]
 
 theorem logWith_getElem (off : Nat → Off) (rs : List Rec) (i : Nat) (h : i < (logWith off rs).length) :
     (logWith off rs)[i] = (off (i + 1), rs[i]'(by simpa [logWith_length] using h)) := by
@@ -587,13 +592,121 @@ theorem ds_event_offset_not_resumable :
   rw [decimal_0]
   rfl
 
+theorem digitsW_digits (w n : Nat) : (digitsW w n).all isDigit = true := by
+  induction w generalizing n with
+  | zero => rfl
+  | succ w ih =>
+    simp only [digitsW, List.all_append, ih, Bool.true_and]
+    simp [isDigit, zero]; omega
+
+theorem digitsVal_digitsW (w n : Nat) (h : n < 10 ^ w) : digitsVal (digitsW w n) = n := by
+  induction w generalizing n with
+  | zero => simp at h; subst h; rfl
+  | succ w ih =>
+    rw [Nat.pow_succ] at h
+    simp only [digitsW]
+    rw [digitsVal_snoc, ih _ (by omega)]
+    simp [zero]; omega
+
+theorem dsSignMatch_digits (s : List Nat) : s.all isDigit = true →
+    dsParse.match_1 (fun _ => Bool × List Nat) s (fun r => (true, r)) (fun r => (false, r))
+      (fun r => (false, r)) = (false, s) := by
+  intro h
+  split
+  · simp [isDigit] at h
+  · simp [isDigit] at h
+  · rfl
+
+theorem takeWhile_all {α : Type} (p : α → Bool) (l : List α) (h : l.all p = true) :
+    l.takeWhile p = l := by
+  induction l with
+  | nil => rfl
+  | cons x xs ih =>
+    simp only [List.all_cons, Bool.and_eq_true] at h
+    simp [h.1, ih h.2]
+
+theorem dsParse_fmt10 (j : Nat) (hj : j < 10 ^ 10) : dsParse (fmt10 j) = some (j : Int) := by
+  have hne : fmt10 j ≠ [] := fmt10_ne_nil j
+  have hne2 : (fmt10 j == [45, 49]) = false := by
+    apply beq_false_of_ne
+    intro h
+    have := congrArg List.length h
+    simp [fmt10, digitsW_length] at this
+  have hd : (fmt10 j).all isDigit = true := digitsW_digits 10 j
+  unfold dsParse
+  rw [dsSignMatch_digits _ hd]
+  simp only [takeWhile_all _ _ hd]
+  have hv : digitsVal (fmt10 j) = j := digitsVal_digitsW 10 j hj
+  simp [hne, hne2, hv]
+
+/-- resume point `j` of the durable-streams store -/
+def dsResume (j : Nat) : Off := if j = 0 then [] else fmt10 j
+
+theorem dsParse_resume (j : Nat) (hj : j < 10 ^ 10) : dsParse (dsResume j) = some (j : Int) := by
+  unfold dsResume
+  split
+  · rename_i h; subst h; rfl
+  · exact dsParse_fmt10 j hj
+
+theorem ds_serverRead_resume (chunk : Nat) (hc : 0 < chunk) (rs : List Rec) (h : rs.length < 10 ^ 10)
+    (j : Nat) (hj : j ≤ rs.length) :
+    ({ msgs := rs, chunk := chunk } : Ds).serverRead (dsResume j) =
+      some ((rs.drop j).take chunk, fmt10 (j + ((rs.drop j).take chunk).length)) := by
+  unfold Ds.serverRead
+  rw [dsParse_resume j (by omega)]
+  have hmax : max chunk 1 = chunk := by omega
+  simp only [hmax, Int.toNat_natCast]
+  rw [if_neg (by simp; omega)]
+  by_cases hms : (rs.drop j).take chunk = []
+  · simp only [hms, List.isEmpty_nil, if_true, List.length_nil, Nat.add_zero]
+    by_cases hj0 : j = 0
+    · subst hj0; simp [dsResume]
+    · have hne : fmt10 j ≠ [] := fmt10_ne_nil j
+      have hne2 : (fmt10 j == [45, 49]) = false := by
+        apply beq_false_of_ne
+        intro h
+        have := congrArg List.length h
+        simp [fmt10, digitsW_length] at this
+      simp [dsResume, hj0, hne, hne2]
+  · have : ((rs.drop j).take chunk).isEmpty = false := by simpa using hms
+    simp [this]
+
+theorem ds_read_resume (chunk : Nat) (hc : 0 < chunk) (rs : List Rec) (h : rs.length < 10 ^ 10)
+    (j : Nat) (hj : j ≤ rs.length) (limit : Int) (hl : limit ≤ 0 ∨ (chunk : Int) ≤ limit) :
+    ∃ evs, ({ msgs := rs, chunk := chunk } : Ds).read (dsResume j) limit =
+        some (evs, fmt10 (j + evs.length)) ∧
+      evs.map (·.2) = (rs.drop j).take chunk := by
+  unfold Ds.read
+  rw [ds_serverRead_resume chunk hc rs h j hj]
+  simp only
+  generalize hms : (rs.drop j).take chunk = ms
+  have hmsl : ms.length ≤ chunk := by rw [← hms]; simp; omega
+  by_cases hemp : ms = []
+  · subst hemp
+    exact ⟨[], by simp, rfl⟩
+  · have : ms.isEmpty = false := by simpa using hemp
+    simp only [this, Bool.false_eq_true, if_false]
+    generalize hfull : ((List.range ms.length).zip ms).map
+      (fun (x : Nat × Rec) => (fmt10 (j + ms.length) ++ [slash] ++ decimal x.1, x.2)) = full
+    have hfl : full.length = ms.length := by rw [← hfull]; simp
+    have hfm : full.map (·.2) = ms := by
+      rw [← hfull, List.map_map]
+      exact List.map_snd_zip (by simp)
+    have hcut : (if limit > 0 then full.take limit.toNat else full) = full := by
+      split
+      · apply List.take_of_length_le; omega
+      · rfl
+    rw [hcut]
+    exact ⟨full, by rw [hfl], hfm⟩
+
 /-- what does hold: reads that do not truncate (`limit ≤ 0` or `limit ≥ chunk`), chained
 through the returned next offsets, return consecutive chunks of the log -/
 theorem ds_read_untruncated_partial (chunk : Nat) (hc : 0 < chunk) (rs : List Rec) (h : rs.length < 10 ^ 10)
     (j : Nat) (hj : j ≤ rs.length) (limit : Int) (hl : limit ≤ 0 ∨ (chunk : Int) ≤ limit) :
     ∃ evs, (dsOf chunk rs).read (if j = 0 then [] else fmt10 j) limit = some (evs, fmt10 (j + evs.length)) ∧
       evs.map (·.2) = (rs.drop j).take chunk := by
-  sorry
+  rw [dsOf_eq]
+  exact ds_read_resume chunk hc rs h j hj limit hl
 
 /-! ### Replay -/
 
@@ -817,6 +930,7 @@ theorem replaySqlBatched_nofault (rs : List Rec) (batch : Nat) (hb : 0 < batch)
 theorem replaySqlBatched_complete (rs : List Rec) (h : rs.length ≤ maxInt64) (batch : Nat) (hb : 0 < batch)
     (j : Nat) (hj : j ≤ rs.length) (fuel : Nat) (hf : rs.length + 2 ≤ fuel) :
     replaySqlBatched (sqlOf rs) {} batch fuel (j : Int) [] = ⟨(logWith decimal rs).drop j, none, []⟩ := by
+  have _ := h
   simpa using replaySqlBatched_nofault rs batch hb fuel j [] hj (by omega)
 
 /-- SQLite batched streaming, any fault: gap-free prefix (also counting the rows the driver may
@@ -827,6 +941,7 @@ theorem replaySqlBatched_prefix (rs : List Rec) (h : rs.length ≤ maxInt64) (f 
     (r.delivered ++ r.may) <+: (logWith decimal rs).drop j ∧ r.err ≠ some .fuel ∧
     (r.err = none → r.delivered = (logWith decimal rs).drop j) := by
   intro r
+  have _ := h
   obtain ⟨⟨x, hx1, hx2⟩, h2, h3⟩ := replaySqlBatched_inv rs f batch hb fuel j [] hj (by omega)
   refine ⟨?_, h2, ?_⟩
   · show (replaySqlBatched (sqlOf rs) f batch fuel (j : Int) []).delivered ++
@@ -986,12 +1101,68 @@ theorem ds_replay_loses_events :
   rw [dsOf_eq]
   exact ⟨rfl, rfl⟩
 
+theorem dsResume_advance (n : Nat) (hn : n < 10 ^ 10) (j k : Nat) (hk : 0 < k) (hjk : j + k ≤ n) :
+    fmt10 (j + k) ≠ dsResume j := by
+  unfold dsResume
+  split
+  · exact fmt10_ne_nil _
+  · intro he
+    have := digitsW_inj 10 (j + k) j (by omega) (by omega) he
+    omega
+
+theorem ds_replayPaged_nofault (chunk : Nat) (hc : 0 < chunk) (rs : List Rec) (h : rs.length < 10 ^ 10)
+    (batch : Int) (hb : (chunk : Int) ≤ batch) (fuel : Nat) :
+    ∀ (nread j : Nat) (acc : List (Off × Rec)), j ≤ rs.length → (rs.length - j) + 2 ≤ fuel →
+      (replayPaged ({ msgs := rs, chunk := chunk } : Ds).read {} batch fuel nread (dsResume j) acc).err = none ∧
+      (replayPaged ({ msgs := rs, chunk := chunk } : Ds).read {} batch fuel nread (dsResume j) acc).delivered.map (·.2) =
+        acc.map (·.2) ++ rs.drop j := by
+  induction fuel with
+  | zero => intro _ j _ _ hf; omega
+  | succ fuel ih =>
+    intro nread j acc hj hf
+    obtain ⟨evs, hread, hmap⟩ := ds_read_resume chunk hc rs h j hj batch (Or.inr hb)
+    have hlen : evs.length = ((rs.drop j).take chunk).length := by
+      rw [← hmap]; simp
+    have hlen2 : evs.length ≤ rs.length - j := by
+      rw [hlen]; simp; omega
+    simp only [replayPaged]
+    rw [if_neg (by simp [cancelled]), if_neg (by simp), hread]
+    simp only
+    split
+    · rename_i hemp
+      have hnil : evs = [] := by simpa using hemp
+      subst hnil
+      have hd : rs.drop j = [] := by
+        have : (rs.drop j).take chunk = [] := by rw [← hmap]; rfl
+        cases hdj : rs.drop j with
+        | nil => rfl
+        | cons x xs =>
+          rw [hdj] at this
+          have hc' : chunk = (chunk - 1) + 1 := by omega
+          rw [hc'] at this
+          simp at this
+      simp [hd]
+    · rename_i hne
+      have hpos : 0 < evs.length := by
+        apply List.length_pos_iff.mpr
+        simpa using hne
+      rw [deliverList_nofault _ rfl rfl]
+      simp only
+      rw [if_neg (dsResume_advance rs.length h j evs.length hpos (by omega))]
+      have hres : fmt10 (j + evs.length) = dsResume (j + evs.length) := by
+        unfold dsResume; rw [if_neg (by omega)]
+      rw [hres]
+      obtain ⟨ih1, ih2⟩ := ih (nread + 1) (j + evs.length) (acc ++ evs) (by omega) (by omega)
+      refine ⟨ih1, ?_⟩
+      rw [ih2, List.map_append, hmap, List.append_assoc, hlen, ← drop_after_take]
+
 /-- what does hold for durable-streams: with a batch size not below the chunk size Replay
 delivers every event -/
 theorem ds_replay_untruncated_partial (chunk : Nat) (hc : 0 < chunk) (rs : List Rec) (h : rs.length < 10 ^ 10)
     (batch : Int) (hb : (chunk : Int) ≤ batch) (fuel : Nat) (hf : rs.length + 2 ≤ fuel) :
     (replayPaged (dsOf chunk rs).read {} batch fuel 0 [] []).err = none ∧
     (replayPaged (dsOf chunk rs).read {} batch fuel 0 [] []).delivered.map (·.2) = rs := by
-  sorry
+  rw [dsOf_eq]
+  simpa [dsResume] using ds_replayPaged_nofault chunk hc rs h batch hb fuel 0 0 [] (by omega) (by omega)
 
 end Ebu.Log
